@@ -495,7 +495,12 @@ func checkSpoofRanges(p *Prog, r *Report, fill *ssa.Function) {
 	for _, b := range fill.Blocks {
 		for _, in := range b.Instrs {
 			c, ok := in.(*ssa.Call)
-			if !ok || calleeFull(&c.Call) != "math/rand.Intn" {
+			if !ok {
+				continue
+			}
+			switch calleeFull(&c.Call) {
+			case "math/rand.Intn", "math/rand.Int31n", "math/rand.Int63n": // all return a value in [0, n)
+			default:
 				continue
 			}
 			k++
